@@ -27,7 +27,7 @@ Relations on library outputs alone use 1e-13 (a few ulp: the variants may add th
 import re, threading
 import numpy as np
 from concurrent.futures import ThreadPoolExecutor
-from .. import common, refdata, execlib
+from .. import common, refdata, execlib, build
 
 SH = ['K', 'L1', 'L2', 'L3', 'M1', 'M2', 'M3', 'M4', 'M5']
 NS = len(SH)
@@ -457,7 +457,28 @@ def main(tier):
                              '%s(%d,%d,%.17g) = %r right after %s with the same arguments, %r in a process that calls only this variant' % (
                                  fname, int(aZ[pick][k]), int(aX[pick][k]), float(aE[pick][k]), float(got_v[k, c]), prev, float(v0[k])),
                              dict(call='%s(%d,%d,%.17g)' % (fname, int(aZ[pick][k]), int(aX[pick][k]), float(aE[pick][k])), preceded_by=prev, config='kissel'))
-        inter[what] = dict(tuples=int(len(pick)), calls=int(len(seq)), differing=int(nbad))
+        # ... and the bits the library gives when the PROJECT's build system makes it (meson: its compiler arguments), inside a host that defines
+        # the library's internal names itself (build.hostile_host)
+        pm = pick[np.sort(rng.choice(len(pick), size=min(len(pick), 4000 if tier == 'quick' else 60000), replace=False))]
+        nbad_m = ncalls_m = 0
+        try:
+            Lm = execlib.Lib('kissel', 'meson', shuffle=False, env={'LD_PRELOAD': build.hostile_host('kissel')['so']})
+            resm = Lm.multi([(fname, aZ[pm], aX[pm], aE[pm]) for fname in names])
+            for fname, rm in zip(names, resm):
+                ok0, v0, _ = outs[fname]
+                ok0, v0 = ok0.ravel()[pm], v0.ravel()[pm]
+                ncalls_m += len(pm)
+                bad = np.nonzero((rm.v.view('u8') != v0.view('u8')) | (rm.ok != ok0))[0]
+                nbad_m += len(bad)
+                for k in bad[:2]:
+                    ck.violation('c08:%s:project-build-differs-from-the-monitor-build' % fname,
+                                 '%s(%d,%d,%.17g) = %r (%s) in the library built by meson, %r (%s) in the monitor\'s build of the same sources' % (
+                                     fname, int(aZ[pm][k]), int(aX[pm][k]), float(aE[pm][k]), float(rm.v[k]), 'ok' if rm.ok[k] else 'error: %s' % rm.msg(k), float(v0[k]), 'ok' if ok0[k] else 'error'),
+                                 dict(call='%s(%d,%d,%.17g)' % (fname, int(aZ[pm][k]), int(aX[pm][k]), float(aE[pm][k])), config='kissel', build='meson'))
+        except execlib.ExecCrash as ex:
+            ck.violation('c08:%s:project-build-dies' % what, 'the %s variants kill the executor (rc %d) in the library built by meson: %s' % (what, ex.rc, ex.tail[-200:]), dict(config='kissel', build='meson'))
+        COUNT['kissel'] = COUNT.get('kissel', 0) + ncalls_m
+        inter[what] = dict(tuples=int(len(pick)), calls=int(len(seq)), differing=int(nbad), calls_in_the_project_build=int(ncalls_m), differing_in_the_project_build=int(nbad_m))
     st['per_function']['interleaved-variants'] = inter
 
     # ------------------------------------------------------------------ shipped configuration: everything fails
